@@ -335,7 +335,17 @@ func Exec(d *debugger.Debugger, addr string, c Case) (*Run, *Snapshot) {
 		ids[s] = len(ids) + 1
 		return ids[s]
 	}
-	run.Lines = append(run.Lines, fmt.Sprintf("dbg init %d %d", len(names), exc))
+	var errSt []int
+	for i, nm := range names {
+		if strings.HasPrefix(nm, am.PrefixErr) {
+			errSt = append(errSt, i)
+		}
+	}
+	if len(errSt) > 0 {
+		run.Lines = append(run.Lines, fmt.Sprintf("dbg init %d %d %s", len(names), exc, core.ShowList(errSt)))
+	} else {
+		run.Lines = append(run.Lines, fmt.Sprintf("dbg init %d %d", len(names), exc))
+	}
 	run.Obs = append(run.Obs, "ok")
 	for i, msg := range snap.msgs {
 		rr := recs[i]
@@ -365,6 +375,20 @@ func Exec(d *debugger.Debugger, addr string, c Case) (*Run, *Snapshot) {
 		for si := range names {
 			if msg.Is1(snap.index, names[si]) {
 				act = append(act, si)
+			}
+		}
+		// the error index in the property's words: it holds exactly the records with an active error state
+		{
+			isErr := false
+			for _, si := range act {
+				if si == exc || strings.HasPrefix(names[si], am.PrefixErr) {
+					isErr = true
+				}
+			}
+			back := i > 0 && p.TimeSum < snap.parsed[i-1].TimeSum
+			if !back && isErr != slices.Contains(snap.errors, i) {
+				run.Failures = append(run.Failures, fmt.Sprintf("record %d shows active states %v (%v), the error index %v says error=%v", i, act, names, snap.errors, !isErr))
+				return run, nil
 			}
 		}
 		if !rr.queued && rr.hasSteps {
@@ -444,6 +468,30 @@ func Exec(d *debugger.Debugger, addr string, c Case) (*Run, *Snapshot) {
 			}
 			if outs[i] != fmt.Sprint(want) {
 				run.Failures = append(run.Failures, fmt.Sprintf("TxIndex returned %s for the id of record %d (a linear scan finds %d)", outs[i], want, want))
+			}
+		}
+		if strings.HasPrefix(l.line, "dbg atm ") {
+			s, want := uint64(atoi(strings.Fields(l.line)[2])), 0
+			for j, p := range snap.parsed {
+				if p.TimeSum == s {
+					want = j
+					break
+				}
+			}
+			if outs[i] != fmt.Sprint(want) {
+				run.Failures = append(run.Failures, fmt.Sprintf("TxAtMachTime(%d) returned %s, a linear scan over the %d records finds the first record with that time sum at %d", s, outs[i], len(snap.parsed), want))
+			}
+		}
+		if strings.HasPrefix(l.line, "dbg atq ") && len(snap.msgs) > 0 {
+			q, want := uint64(atoi(strings.Fields(l.line)[2])), len(snap.msgs)-1
+			for j, msg := range snap.msgs {
+				if msg.QueueTick >= q {
+					want = j
+					break
+				}
+			}
+			if outs[i] != fmt.Sprint(want) {
+				run.Failures = append(run.Failures, fmt.Sprintf("TxAtQueueTick(%d) returned %s, a linear scan over the %d records finds the first record at or past that tick at %d", q, outs[i], len(snap.msgs), want))
 			}
 		}
 	}
